@@ -6,6 +6,8 @@
 #ifndef CMAX
 #define CMAX 8
 #endif
+typedef struct { int cls; size_t off; _Bool nonnull; } bl_fptr; typedef long bl_sfit;
+typedef struct { bl_fptr first; int second; } pair_fc;
 typedef int bl_cname; typedef long bl_objid; typedef int bl_clsid; typedef int bl_decl; typedef int bl_body; typedef int bl_stmt; typedef int bl_stmts; typedef int bl_mth; typedef int bl_argsref;
 #define BL_NAME_THIS 1
 #endif
